@@ -2,9 +2,13 @@ package props
 
 import (
 	"bufio"
+	"bytes"
+	"encoding/json"
 	"fmt"
 	"os"
+	"os/exec"
 	"strings"
+	"time"
 
 	"verifsim/core"
 )
@@ -28,6 +32,8 @@ type Spec struct {
 	Probes func() []*Case
 	// ShrinkBudget bounds minimisation.
 	ShrinkBudget int
+	// Shrink, when set, replaces the generic shrinker.
+	Shrink func(c *Case, still func(*Case) bool, budget int) *Case
 	// Post runs once in the orchestrator after the workers (extra stages such
 	// as the real binary); it may add violations and coverage.
 	Post func(seed uint64, tier string, cov *Cov) ([]*Violation, map[string]any, error)
@@ -98,4 +104,58 @@ func LoadKnown(path string) ([]KnownFinding, error) {
 		out = append(out, kf)
 	}
 	return out, sc.Err()
+}
+
+// RaceStages are the free-running stages a -race build of vcheck can run.
+var RaceStages = map[string]func(seed uint64, rounds int) []*Violation{}
+
+// runRaceStage executes `$VERIF_RACE_BIN racestage <prop> <seed> <rounds>` (a
+// vcheck built with -race) and turns a race report into a violation. This is
+// NOT deterministic simulation: nobody controls the schedule. The witness is
+// the race detector's own report.
+func runRaceStage(prop string, seed uint64, tier string) ([]*Violation, map[string]any, error) {
+	bin := os.Getenv("VERIF_RACE_BIN")
+	if bin == "" {
+		return nil, map[string]any{"free_running": "skipped: VERIF_RACE_BIN not set"}, nil
+	}
+	rounds := 6
+	if tier == "thorough" {
+		rounds = 200
+	}
+	t0 := time.Now()
+	cmd := exec.Command(bin, "racestage", prop, fmt.Sprint(seed), fmt.Sprint(rounds))
+	cmd.Env = append(os.Environ(), "GORACE=halt_on_error=1 exitcode=66", "GOMAXPROCS=16")
+	var so, se bytes.Buffer
+	cmd.Stdout, cmd.Stderr = &so, &se
+	err := cmd.Run()
+	info := map[string]any{"free_running": map[string]any{
+		"what": "the same task scripts run by 16 goroutines with real parallelism in a -race build; NOT simulated, schedule uncontrolled", "rounds": rounds, "wall_s": time.Since(t0).Seconds(), "race_reports": 0}}
+	code := 0
+	if err != nil {
+		ee, ok := err.(*exec.ExitError)
+		if !ok {
+			return nil, nil, fmt.Errorf("race stage: %v", err)
+		}
+		code = ee.ExitCode()
+	}
+	switch code {
+	case 0:
+		return nil, info, nil
+	case 66:
+		info["free_running"].(map[string]any)["race_reports"] = 1
+		rep := se.String()
+		if len(rep) > 6000 {
+			rep = rep[:6000]
+		}
+		ex, _ := json.Marshal(map[string]any{"race_report": rep, "rounds": rounds})
+		return []*Violation{{Prop: prop, Clause: prop + ".race", Msg: "the race detector reported a data race in the free-running stage: " + clipS(rep, 1200),
+			Case: &Case{Prop: prop, Seed: seed, Mode: "free-running", Extra: ex}}}, info, nil
+	case 1:
+		var vs []*Violation
+		if err := json.Unmarshal(so.Bytes(), &vs); err != nil {
+			return nil, nil, fmt.Errorf("race stage: bad output: %v: %s", err, clipS(so.String()+se.String(), 500))
+		}
+		return vs, info, nil
+	}
+	return nil, nil, fmt.Errorf("race stage exited %d: %s", code, clipS(se.String(), 1500))
 }
